@@ -11,6 +11,38 @@ theorem cbDone_ne_rdyL (k : AKind) (j e : Nat) (x : Obs) : cbDone k j e ≠ .rdy
 theorem cbDone_cell (k : AKind) (j e j' : Nat) (h : cbDone k j e = .wake (.cell j')) : j' = j := by
   cases k <;> simp_all [cbDone]
 
+theorem decided_facts {pc : CPc} (h : decided pc = true) :
+    regPos pc = none ∧ freshPc pc = false ∧ afterRegPc pc = false ∧ inOp pc = true ∧ pc ≠ .susp ∧ (∀ x, pc ≠ .rdyL x) := by
+  cases pc <;> simp_all [decided, regPos, freshPc, afterRegPc, inOp]
+
+/-- InvB of a state in which the awaiter has decided: none of my callbacks is registered, nothing is pending, everything
+    awaited is complete -/
+theorem invB_of_decided {w : Workload} {s : State}
+    (hfu : ∀ j l, s.word j = .open l true → w.unsafeCell j = true)
+    (hno : ∀ j p, p ∉ (s.word j).cbs) (hdec : decided s.pc = true)
+    (hnp : ∀ (q : Nat), s.st[q]? ≠ some CbSt.pending)
+    (hall : ∀ op rest j, s.todo = op :: rest → j ∈ op.cells → (s.word j).isResult = true)
+    (hwc : ∀ j, s.pc = .wake (.cell j) → ∀ op rest, s.todo = op :: rest → j ∈ op.cells) : InvB w s := by
+  obtain ⟨h1, h2, h3, h4, h5, h6⟩ := decided_facts hdec
+  constructor
+  · exact hfu
+  · intro j
+    have : (s.word j).cbs = [] := List.eq_nil_iff_forall_not_mem.mpr (hno j)
+    rw [this]; exact List.nodup_nil
+  · intro j p hp; exact absurd hp (hno j p)
+  · intro j p op rest hp; exact absurd hp (hno j p)
+  · intro j p op rest hp; exact absurd hp (hno j p)
+  · intro op rest p j _ _ _ hs; exact absurd hs (hnp p)
+  · intro op rest p j ht _ hc _; exact hall op rest j ht (List.mem_iff_getElem?.mpr ⟨p, hc⟩)
+  · intro p q x hp; rw [h1] at hp; cases hp
+  · intro hf; rw [h2] at hf; cases hf
+  · intro hf; rw [h3] at hf; cases hf
+  · intro _; exact hnp
+  · intro _; exact hall
+  · intro hp; exact absurd hp (h6 _)
+  · intro hp; exact absurd hp h5
+  · exact hwc
+
 theorem count_pos_of_getElem? {l : List CbSt} {p : Nat} {x : CbSt} (h : l[p]? = some x) : 0 < l.count x :=
   List.count_pos_iff.mpr (mem_of_getElem? h)
 
